@@ -102,6 +102,7 @@ async def _run(recipe, lines, tags):
     rq.suspend = bool(recipe.get("susp", False))
     del rq.log[:]
     probes = list(dict.fromkeys(SIDS + [s for op in recipe["ops"] for s in sids_of(op)]))
+    c09env.CALLBACK_NOW[0] = c09env.CALLBACK
     lines.append(f"cfg {tok_str(c09env.HOST)} {tok_str(c09env.CALLBACK)}")
     lines.append("probe " + ",".join(tok_str(s) for s in probes))
     lines.append(f"nsvc {nsvc}")
@@ -112,6 +113,11 @@ async def _run(recipe, lines, tags):
     granted = False
     for op in recipe["ops"]:
         k = op[0]
+        if k == "url":    # the notify server's callback URL changes (stopped and restarted on another port) between two calls
+            c09env.CALLBACK_NOW[0] = c09env.callback_for(op[1])
+            lines.append(f"cfg {tok_str(c09env.HOST)} {tok_str(c09env.CALLBACK_NOW[0])}")
+            tags.add("callback-url-changed")
+            continue
         if k in ("sub",) and not 0 <= op[1] < nsvc:
             continue
         if k in ("resub", "unsub") and op[1] == "s" and not 0 <= op[2] < nsvc:
@@ -274,6 +280,8 @@ def rand_react(rng, renew: bool):
 
 
 def rand_op(rng, nsvc: int):
+    if rng.randrange(12) == 0:
+        return ["url", rng.randrange(4)]
     c = rng.randrange(0, 20)
     t = rng.choice(TIMEOUTS)
     if c < 6:
@@ -313,6 +321,12 @@ CORPUS = [
     {"nsvc": 2, "ops": [["sub", 0, 1800, [R(200, "uuid:a")]], ["sub", 1, 1800, [R(299, "uuid:b")]], ["resub", "s", 0, 1800, [R(499), R(200, "uuid:c")]],
                         ["resub", "i", "uuid:c", 1800, [R(599), R(509)]], ["sub", 1, 1800, [R(200, "uuid:b")]], ["unsub", "i", "uuid:b", [R(799)]],
                         ["sub", 0, 1800, [R(200, "uuid:a")]], ["resuball", [R(499), R(200, "uuid:d")]], ["unsuball", [R(599)]]]},
+    # batch 6: the notify server's callback URL changes between calls of a long-lived handler; every later initial SUBSCRIBE — also
+    # the one a refused renewal falls back to, also inside renew-all — carries the CURRENT URL
+    {"nsvc": 2, "ops": [["sub", 0, 1800, [R(200, "uuid:a")]], ["url", 1], ["sub", 1, 1800, [R(200, "uuid:b")]],
+                        ["resub", "s", 0, 1800, [R(412), R(200, "uuid:c")]], ["url", 2], ["resuball", [R(412), R(200, "uuid:d"), R(200)]],
+                        ["url", 0], ["sub", 0, 1800, [R(200, "uuid:e")]]]},
+    {"nsvc": 1, "ops": [["url", 3], ["sub", 0, 300, [R(500)]], ["url", 1], ["sub", 0, 300, [R(200, "uuid:a")]]]},
     # timeouts longer than a day (timedelta.seconds drops the days), empty SID
     {"nsvc": 1, "ops": [["sub", 0, 86405, [R(200, "", "Second-infinite")]], ["resub", "s", 0, 86405, []], ["resub", "i", "", 90000, [R(200)]]]},
     # garbage granted timeouts (F09b: used to raise half-way; judged except for the returned timeout value)
@@ -366,6 +380,10 @@ def generate(ctx: Ctx) -> List[Case]:
             recipes.append({"nsvc": 2, "ops": list(seq)})
         for seq in itertools.product(full, repeat=2):
             recipes.append({"nsvc": 2, "ops": list(seq)})
+    # the enumerated histories of length 2 (thorough: 3) once more with the callback URL changing after the first call
+    m = 3 if ctx.thorough else 2
+    for seq in itertools.product(EXH_CORE, repeat=m):
+        recipes.append({"nsvc": 2, "ops": [seq[0], ["url", 1]] + list(seq[1:])})
     n_random = 20000 if ctx.thorough else 1000
     for _ in range(n_random):
         nsvc = rng.randrange(1, 4)
